@@ -48,15 +48,6 @@ def select__node_kind_test(self: XPathFunction, context: ta.ContextType = None) 
                 yield item
 
 
-@method('node')
-def nud__item_sequence_type(self: XPathFunction) -> XPathFunction:
-    XPathFunction.nud(self)
-    if self.parser.next_token.symbol in ('*', '+', '?'):
-        self.occurrence = self.parser.next_token.symbol
-        self.parser.advance()
-    return self
-
-
 @method(function('processing-instruction', nargs=(0, 1), bp=79, label='kind test'))
 def select__pi_kind_test(self: XPathFunction, context: ta.ContextType = None) \
         -> Iterator[ProcessingInstructionNode]:
